@@ -58,6 +58,12 @@ class _EulerBernoulli(_GroupElem):
 
     # N
 
+    @property
+    def inDim(self) -> int:
+        # Beam strains are derivatives along the fibre: a member lying on the x axis must not
+        # be treated as a 1D mesh derived with respect to the global x (sign flips towards -x).
+        return max(2, super().inDim)
+
     @abstractmethod
     def _Hermitian_N(self) -> _types.FloatArray:
         """Hermitian shape functions in the (ξ, η, ζ) coordinates.\n
